@@ -129,8 +129,9 @@ func ExecC04(t *testing.T, pa any, col *kernel.Collector) []kernel.Violation {
 
 func execC04(p *Plan, col *kernel.Collector) []kernel.Violation {
 	ResetCrit()
+	defer InstallMapOrder(p.OrderSeed)()
 	mrand.Seed(int64(HashPlan(p) & 0x7fffffffffffffff))
-	if p.GoMaxProcs > 0 {
+	if p.GoMaxProcs > 0 && os.Getenv("VERIF_NO_GOMAXPROCS") == "" {
 		defer runtime.GOMAXPROCS(runtime.GOMAXPROCS(p.GoMaxProcs))
 	}
 	u, err := Build(&p.Recipe)
@@ -515,6 +516,9 @@ func GenC04(rng *kernel.RNG, env *kernel.Env, k int) any {
 		o.MaxMain = 40
 	}
 	p := &Plan{FailAt: -1, SampleSeed: rng.Uint64(), GoMaxProcs: []int{1, 2, 4, 16}[rng.Intn(4)]}
+	if rng.Intn(2) == 0 {
+		p.OrderSeed = rng.Uint64() | 1
+	}
 	p.Recipe = GenRecipe(rng, o)
 	cfg := NodeCfg{Archive: rng.Bool(0.4), Scale: []int{1, 1, 50, 2000}[rng.Intn(4)]}
 	if !cfg.Archive {
